@@ -196,7 +196,16 @@ func (r *c12Run) record(fails []lib.Failure, knownSigs map[string]bool) {
 		}
 		r.perSig[f.Signature]++
 		if !knownSigs[f.Signature] && r.shrink {
-			f.Ops = r.shrinkTo(f.Ops, f.Signature)
+			// shrink, then report the failure as it shows on the shrunk sequence
+			small := r.shrinkTo(f.Ops, f.Signature)
+			if fs, _, err := r.runSeq(small, false); err == nil {
+				for _, g := range fs {
+					if g.Signature == f.Signature {
+						f = g
+						break
+					}
+				}
+			}
 		}
 		r.c.R.Fail(f)
 	}
@@ -204,9 +213,32 @@ func (r *c12Run) record(fails []lib.Failure, knownSigs map[string]bool) {
 
 // ---- generator -------------------------------------------------------------
 
+// c12GenBody draws a body token (and, for the production-client stream, a way of
+// transmitting it): short texts, 0 B, 1 B, 4 KiB, 64 KiB and (rarely) 1 MiB.
+func c12GenBody(rng *rand.Rand, prod bool) string {
+	var b string
+	switch x := rng.Intn(100); {
+	case x < 40:
+		b = []string{"OK", "accepted", "fail", "-"}[rng.Intn(4)]
+	case x < 50:
+		b = "-"
+	case x < 60:
+		b = "X1"
+	case x < 78:
+		b = "X4096"
+	case x < 97:
+		b = "X65536"
+	default:
+		b = "X1048576"
+	}
+	if prod {
+		b += ":" + []string{"d", "l", "q", "p", "c"}[rng.Intn(5)]
+	}
+	return b
+}
+
 func c12GenOutcome(rng *rand.Rand, prod bool, pFail float64) string {
-	bodies := []string{"OK", "accepted", "fail", "-"}
-	b := bodies[rng.Intn(len(bodies))]
+	b := c12GenBody(rng, prod)
 	if rng.Float64() >= pFail {
 		return "r200:" + b
 	}
@@ -220,10 +252,17 @@ func c12GenOutcome(rng *rand.Rand, prod bool, pFail float64) string {
 	case 1:
 		return "terr"
 	default:
-		if rng.Intn(2) == 0 {
-			return "ub200" // a 200 whose body cannot be read is a failure, too
+		code := []string{"ub200", "ub500"}[rng.Intn(2)] // a 200 whose body cannot be read is a failure, too
+		switch rng.Intn(4) {
+		case 0:
+			return code
+		case 1:
+			return code + ":0"
+		case 2:
+			return code + ":4096"
+		default:
+			return code + ":65536"
 		}
-		return "ub500"
 	}
 }
 
@@ -346,6 +385,31 @@ var c12Corpus = [][]string{
 	{"hook cfg 2 scripted", "hook register BEARER - tok1 u1", "hook notify u1=r500:fail", "hook notify u1=r404:-", "hook get u1", "hook register CUSTOM_HEADER X-Api-Key other u1", "hook get u1", "hook dump", "hook restart", "hook get u1"},
 }
 
+// c12CorpusReplies: production client, max_tries 2, four healthy targets that answer 200 with
+// bodies of 0 B / 1 B / 4 KiB / 64 KiB / 1 MiB in every transmission mode, twice in a row
+// (a 200 counted as failure twice would deactivate), non-200 replies of the same shapes,
+// and bodies cut off mid-way. Every readable 200 is the same outcome: count 0, active.
+func c12CorpusReplies() [][]string {
+	seq := []string{"hook cfg 2 prod", "hook register BEARER - tok1 u1", "hook register CUSTOM_HEADER X-Api-Key key22 u2",
+		"hook register NONE - - u3", "hook register CUSTOM_HEADER X-Hook-Token key44 u4"}
+	for round := 0; round < 2; round++ {
+		for _, m := range []string{"d", "l", "q", "p", "c"} {
+			seq = append(seq, fmt.Sprintf("hook notify u1=r200:-:%s u2=r200:X1:%s u3=r200:X4096:%s u4=r200:X65536:%s", m, m, m, m))
+		}
+	}
+	seq = append(seq, "hook notify u1=r200:X1048576:p u2=r200:X1048576:c u3=r200:X1048576:l u4=r200:X1048576:d",
+		"hook notify u1=r200:X1048576:q u2=r200:OK:p u3=r200:OK:c u4=r200:OK:q",
+		"hook get u1", "hook get u2", "hook get u3", "hook get u4")
+	seq2 := []string{"hook cfg 3 prod", "hook register BEARER - tok1 u1", "hook register NONE - - u2", "hook register CUSTOM_HEADER X-Api-Key key33 u3"}
+	for _, m := range []string{"d", "l", "q", "p", "c"} {
+		seq2 = append(seq2, fmt.Sprintf("hook notify u1=r500:X65536:%s u2=r200:X65536:%s u3=ub200:4096", m, m),
+			fmt.Sprintf("hook notify u1=r200:X4096:%s u2=r404:-:%s u3=r200:X1:%s", m, m, m),
+			fmt.Sprintf("hook notify u1=ub500:65536 u2=r200:-:%s u3=r201:X4096:%s", m, m))
+	}
+	seq2 = append(seq2, "hook get u1", "hook get u2", "hook get u3", "hook restart", "hook get u1", "hook get u2", "hook get u3")
+	return [][]string{seq, seq2}
+}
+
 // c12FixedWitnesses reads the `fixed` entries of this property from KNOWN_FINDINGS.json.
 func c12FixedWitnesses(path string) [][]string {
 	b, err := os.ReadFile(path)
@@ -376,7 +440,7 @@ func c12FixedWitnesses(path string) [][]string {
 
 func runC12(c *Ctx) error {
 	c.R.Rule = "sequences of 8..26 ops (thorough: ..60) over 4 URLs: register {BEARER|CUSTOM_HEADER|no auth|header name left out} (so re-registration of active and inactive URLs happens), " +
-		"notify with a per-URL outcome from {200, other status incl. 2xx/3xx, transport error, unreadable body (status 200 or 500)}, get, delete (also of unknown URLs), requests without url (malformed stream), restart (close + reopen the SQLite file), dump; " +
+		"notify with a per-URL outcome from {200, other status incl. 2xx/3xx, transport error, body cut off after 0 B / 4 KiB / 64 KiB (status 200 or 500)}, reply bodies of 0 B / 1 B / 4 KiB / 64 KiB / 1 MiB and, for the production client, five ways of transmitting them (at once, Content-Length, Content-Length + flush + 10-30 ms pause, flush + pause + chunked, several flushed chunks), get, delete (also of unknown URLs), requests without url (malformed stream), restart (close + reopen the SQLite file), dump; " +
 		"every max_tries 1..5; scripted client stream + production-client stream against an httptest server; plus every sequence of length <=3 (thorough <=4) over a 7-letter alphabet on one URL for max_tries 1..3. " +
 		"The witnesses of the three repaired defects (corpus) run first. A sequence is non-trivial when it has a failed delivery and at least one of: success after failure, re-registration of an inactive URL, delete-then-register, notify after restart; distinct by op list."
 	r := &c12Run{c: c, perSig: map[string]int{}, shrink: true}
@@ -465,7 +529,7 @@ func runC12(c *Ctx) error {
 
 	// corpus first: built-in witnesses + the witnesses of `fixed` entries
 	seenCorpus := map[string]bool{}
-	for _, seq := range append(append([][]string(nil), c12Corpus...), c12FixedWitnesses(c.Known)...) {
+	for _, seq := range append(append(append([][]string(nil), c12Corpus...), c12CorpusReplies()...), c12FixedWitnesses(c.Known)...) {
 		key := strings.Join(seq, ";")
 		if seenCorpus[key] {
 			continue
@@ -516,6 +580,12 @@ func runC12(c *Ctx) error {
 				if w[1] == "notify" {
 					for _, p := range w[2:] {
 						o, _ := c12ParseOutcome(strings.SplitN(p, "=", 2)[1])
+						if o.Kind == "reply" {
+							c.R.Count(fmt.Sprintf("reply-body:%dB", len(o.Body)), 1)
+							if prod {
+								c.R.Count("reply-transmission:"+o.Mode, 1)
+							}
+						}
 						switch {
 						case o.ok():
 							c.R.Count("outcome:200", 1)
